@@ -47,6 +47,15 @@ func vSameFeatures(a, b []gts.Feature) bool {
 	return ok
 }
 
+// vAccession: one accession, or (source-only shapes) a primary and a secondary accession on two lines,
+// as records with many secondary accessions have
+func vAccession(kind int) string {
+	if kind == 1 {
+		return vWordBytes("acc", 1) + "\n" + vWordBytes("acd", 1)
+	}
+	return vWordBytes("acc", 1)
+}
+
 // vKeywords: one short keyword, or (odd shapes) eight 9-letter keywords whose joined text exceeds the 67-column wrap
 func vKeywords(shape int) []string {
 	if shape%2 == 0 {
@@ -100,7 +109,7 @@ func vC01(shape int) {
 	}
 	gb := GenBank{
 		Fields: GenBankFields{LocusName: vWordBytes("locus", 2), Molecule: gts.DNA, Topology: gts.Topology(vChoice("top", 2)), Division: "UNK",
-			Date: vValidDate(), Definition: string(vBytesIn("def", 2, '.', 'z')), Accession: vWordBytes("acc", 1), Version: vWordBytes("ver", 1),
+			Date: vValidDate(), Definition: string(vBytesIn("def", 2, '.', 'z')), Accession: vAccession(kind), Version: vWordBytes("ver", 1),
 			Keywords: vKeywords(shape),
 			Source:   Organism{vWordBytes("sp", 1), vWordBytes("org", 1), []string{vWordBytes("tax", 1), "x"}},
 			References: []Reference{{Number: 1, Info: "(bases 1 to 4)", Authors: vWordBytes("au", 1), Title: vWordBytes("ti", 1)}},
@@ -176,7 +185,7 @@ func vC01(shape int) {
 }
 
 //verif:harness prop=C01 quick=6 thorough=12 merge=concrete timeout=1500 steps=200000000
-//verif:bounds bounded template records: residues 4 | 0 (CONTIG-only) | 12 | 61 symbolic printable bytes; feature table empty | source only | CDS (symbolic partial range on either strand; quoted, literal, toggle and multi-line qualifiers, /translation followed by another qualifier) + gene join | a feature between two genes whose key starts with two symbolic bytes of the INSDC key alphabet (letters, digits, _ - ' *); header strings of 1..2 symbolic letters each (definition bytes over '.'..'z', so it may end in a period); keywords: one short, or eight long ones that wrap; two comments, one with a blank line inside; reference, dblink and taxonomy compared field by field; symbolic valid calendar date (year 1000..9999); topology by choice
+//verif:bounds bounded template records: residues 4 | 0 (CONTIG-only) | 12 | 61 symbolic printable bytes; feature table empty | source only | CDS (symbolic partial range on either strand; quoted, literal, toggle and multi-line qualifiers, /translation followed by another qualifier) + gene join | a feature between two genes whose key starts with two symbolic bytes of the INSDC key alphabet (letters, digits, _ - ' *); header strings of 1..2 symbolic letters each (definition bytes over '.'..'z', so it may end in a period); keywords: one short, or eight long ones that wrap; two comments, one with a blank line inside; a two-line ACCESSION in the source-only shapes; reference, dblink and taxonomy compared field by field; symbolic valid calendar date (year 1000..9999); topology by choice
 //verif:assume time.Time.Format("02-Jan-2006") is modelled field by field for a valid date
 func VH_C01_roundtrip() {
 	ns := 6 + 6*vTier()
